@@ -164,6 +164,24 @@ def mset(lst):
     return set(tuple(m) if isinstance(m, list) else ('raw',) + tuple(m['raw']) for m in lst)
 
 
+def replay_load(tag, rec):
+    """C10: the file rendered by TLC is loaded (nothing is solved) and the Model
+    is compared with the instance the file denotes."""
+    impl.ensure_repo()
+    cl = Clauses(rec)
+    o = rec['o']
+    path = impl.write_text(o['text'])
+    info = {'hash': rec.get('_h'), 'stab': False, 'pc': False, 'two': o['twopl'], 'nF': 0, 'nF0': 0, 'nsolves': 0, 'ncrit': 0,
+            'sample': {'argv': argv_of(o, '<file>')[2:], 'file': bytes(o['text']).decode('latin-1'), 'denoted': rec['inst']}}
+    try:
+        st, S = impl.construct_solver(argv_of(dict(o, flags=[], stab=False), path))
+        if cl.add('C10', 'loads_without_error', st == 'ok', 'Solver(argv) -> %s %s' % (st, S)):
+            compare_loaded(cl, impl.loaded_instance(S), rec['inst'])
+        return cl.out, info
+    finally:
+        os.unlink(path)
+
+
 def replay_lp(tag, rec):
     """One exported LP behaviour -> clause verdicts."""
     impl.ensure_repo()
